@@ -60,7 +60,31 @@ func init() {
 				"atomic.CompareAndSwapInt64":            {Tag: 5, Keep: []int{1, 2}, Ret: hint{"cas_ok", "bool"}},
 			},
 			Ctors: hotspotCtors},
+
+		// C06: ConcurrencyStatSlot.OnEntryPassed / OnCompleted - one iteration of the loop over the resource's
+		// controllers, for an arbitrary controller tc.  Trace: (3,[]) ConcurrencyCounter.Get(arg), (6,[d])
+		// atomic.AddInt64(cell, d).
+		target{Dir: "core/hotspot", Func: "ConcurrencyStatSlot.OnEntryPassed", Name: "hotspot_onEntryPassed_step", LoopBody: 1,
+			Hints: hotspotStatHints, Acts: hotspotStatActs, RangeVars: map[string]string{"tc": "TrafficShapingController"}},
+		target{Dir: "core/hotspot", Func: "ConcurrencyStatSlot.OnCompleted", Name: "hotspot_onCompleted_step", LoopBody: 1,
+			Hints: hotspotStatHints, Acts: hotspotStatActs, RangeVars: map[string]string{"tc": "TrafficShapingController"}},
 	)
+}
+
+var hotspotStatHints = map[string]hint{
+	"ctx.Resource.Name()":                   {"", "opaque"},
+	"getTrafficControllersFor(res)":         {"", "opaque"},
+	"tc.BoundRule().MetricType":             {"rule_metricType", "int32"},
+	"tc.ExtractArgs(ctx)":                   {"", "opaque"},
+	"tc.BoundMetric()":                      {"", "opaque"},
+	"metric.ConcurrencyCounter.Get(arg)":    {"", "opaque"},
+	"metric.ConcurrencyCounter.Get(arg) ok": {"cell_found", "bool"},
+	"logging.DebugEnabled()":                {"debug", "bool"},
+}
+
+var hotspotStatActs = map[string]act{
+	"metric.ConcurrencyCounter.Get": {Tag: 3},
+	"atomic.AddInt64":               {Tag: 6, Keep: []int{1}},
 }
 
 // hints shared by the two QPS controllers: the prologue of PerformChecking
